@@ -12,8 +12,8 @@ EXPLANATION = ('For every family the *_seq routine is run on a symbolic coordina
                'and symbolic shape parameters, for EVERY ascending subset of {0..nmax} (and, for the two-index families, '
                'ordered selections from a pool of (n,m) pairs), and compared element-wise with the scalar-order routine; '
                'leading shape must be (len(ns), *x.shape); an exception in the sequence form is a violation.')
-BOUNDS = {'quick': 'nmax=4 (31 subsets) per family and coordinate shape in {(), (3,), (2,3), (k,k), (2,2,2)}; 2-index pools of 6 pairs, all ordered pairs + 6 longer lists',
-          'thorough': 'nmax=6 (127 subsets); pools of 8 pairs, all ordered pairs and triples-sample + 12 longer lists'}
+BOUNDS = {'quick': 'nmax=4 (31 subsets) per family and coordinate shape in {(), (3,), (2,3), (k,k), (2,2,2)}; 2-index pools of 8 pairs (radial orders up to 6), all ordered pairs + 6 longer lists; xy_seq with and without cartesian_grid',
+          'thorough': 'nmax=6 (127 subsets); pools of 12 pairs (8 for xy), all ordered pairs + 12 longer lists'}
 OUTSIDE = 'orders above the bound; non-ascending order lists for one-index families (documented as unsupported)'
 MAX_PATHS = 4
 NDERIVED = 40
@@ -55,7 +55,7 @@ def configs(tier):
             out.append({'name': '%s-%s' % (fam, shp), 'family': fam, 'shape': shp, 'nmax': nmax})
     for fam in TWO_INDEX:
         for shp in ('3', '2x3', 'kxk'):
-            out.append({'name': '%s-%s' % (fam, shp), 'family': fam, 'shape': shp, 'pool': 7 if q else 10,
+            out.append({'name': '%s-%s' % (fam, shp), 'family': fam, 'shape': shp, 'pool': 8 if q else 12,
                         'nlists': 6 if q else 12})
     return out
 
@@ -73,7 +73,8 @@ def shape_for(code, k):
     return {'0d': (), '3': (3,), '2x3': (2, 3), 'kxk': (k, k), '2x2x2': (2, 2, 2)}[code]
 
 
-POOL_ZERNIKE = [(0, 0), (1, 1), (1, -1), (2, 0), (3, 1), (2, -2), (3, -1), (4, 0), (3, -3), (5, 1)]
+# several radial orders per |m|, also in descending order (the per-|m| bookkeeping of the radial recurrences must not depend on it)
+POOL_ZERNIKE = [(0, 0), (1, 1), (5, -1), (3, 1), (6, 0), (2, 0), (4, -2), (2, 2), (3, -3), (7, 1), (4, 0), (1, -1)]
 POOL_Q2D = [(0, 0), (4, 1), (0, 1), (5, -1), (2, 2), (0, -2), (1, -1), (2, 0), (1, 3), (6, 1)]
 POOL_XY = [(0, 0), (1, 0), (0, 1), (2, 1), (0, 3), (3, 0), (1, 1), (2, 2)]
 
@@ -122,8 +123,25 @@ def run(cfg, H):
             got = H.expect_no_raise('seq-raises ' + tag, lambda: P.xy_seq(lst, x, y, cartesian_grid=False))
             if got is None:
                 continue
+            for g, (m_, n_) in zip(got, lst):
+                H.shape_is('shape of mode (%d,%d) in %s' % (m_, n_, tag), g, tuple(shp))
             got = H.np.stack([H.asarray(g + 0 * x) for g in got])
             ref = H.np.stack([H.asarray(P.xy(m, n, x, y, cartesian_grid=False) + 0 * x) for m, n in lst])
+            if len(shp) == 2:
+                # separable evaluation on a true Cartesian grid (the default): every mode has the grid's shape
+                xv = H.rarray('xv', (shp[1],))
+                yv = H.rarray('yv', (shp[0],))
+                gx, gy = H.np.meshgrid(H.np.asarray(xv), H.np.asarray(yv))
+                gx, gy = H.asarray(gx), H.asarray(gy)
+                gotc = H.expect_no_raise('seq-raises (cartesian grid) ' + tag, lambda: P.xy_seq(lst, gx, gy))
+                if gotc is not None:
+                    okshape = True
+                    for g, (m_, n_) in zip(gotc, lst):
+                        H.shape_is('cartesian-grid shape of mode (%d,%d) in %s' % (m_, n_, tag), g, tuple(shp))
+                        okshape = okshape and tuple(H.np.shape(g)) == tuple(shp)
+                    if okshape:
+                        H.eq('cartesian-grid values ' + tag, H.np.stack([H.asarray(g) for g in gotc]),
+                             H.np.stack([H.asarray(gx ** m_ * gy ** n_ + 0 * gx) for m_, n_ in lst]))
         else:
             r = H.rarray('r', shp)
             t = H.param('t') + 0 * r
